@@ -192,6 +192,7 @@ let rec value_of (x : sexp) : value =
                 List.map (fun f -> match f with L [A fname; v] -> (coq_string (unhex fname), value_of v) | _ -> failwith "field") fs)
   | L (A "variant" :: A name :: vs) -> VVariantV (coq_string (unhex name), List.map value_of vs)
   | L (A "vec" :: vs) -> VVecV (List.map value_of vs)
+  | L (A "view" :: A name :: vs) -> VViewV (coq_string (unhex name), List.map value_of vs)
   | L (A "map" :: kvs) ->
       VMapV (List.map (fun kv -> match kv with L [k; v] -> (value_of k, value_of v) | _ -> failwith "kv") kvs)
   | _ -> failwith "value"
